@@ -18,6 +18,7 @@ pub fn read(kind: &'static str) -> Option<u64> {
     Some(c.sched.point(c.tid, Op::Step, |st| {
         let clock = st.clock.as_mut().unwrap();
         let value = clock.now;
+        let value = if clock.quantum > 1 { value - value % clock.quantum } else { value };
         clock.now = clock.now.saturating_add(clock.read_step);
         st.log(c.tid, &Ev::new("ts").s("kind", kind).u("value", value as u128));
         value
